@@ -412,10 +412,72 @@ func (c *Ctx) deepOrigins(v ssa.Value) []ssa.Value {
 // library helper that passes its parameter to Tx.Get and returns the outcome
 // of that nil test as a boolean (`return value != nil, err`).
 func (c *Ctx) existenceEdges(fn *ssa.Function, matchKey func(k ssa.Value) bool) (exists, absent []edge) {
+	return c.existenceEdgesH(fn, matchKey, nil)
+}
+
+// existenceEdgesH additionally understands a helper that probes a key built from its own
+// parameters and reports the outcome through its error result (load(tx, coll, id) (doc, error):
+// every nil-error return lies behind the non-nil test of Tx.Get). matchIn decides whether the
+// key probed inside the helper, with the helper's parameters bound to the call's arguments, is
+// the key of interest (nil: matchKey is asked about the helper's own key expression).
+func (c *Ctx) existenceEdgesH(fn *ssa.Function, matchKey func(k ssa.Value) bool, matchIn func(k ssa.Value, bind map[*ssa.Parameter]ssa.Value) bool) (exists, absent []edge) {
 	allCalls(fn, func(ci ssa.CallInstruction) {
 		call, ok := ci.(*ssa.Call)
 		if !ok {
 			return
+		}
+		if g := staticCallee(call); g != nil && c.IsLib(c.declared(g)) && errResultIndex(g.Signature) >= 0 && !c.isInvokeOf(call, "store", "Tx", "Get") {
+			g = c.declared(g)
+			ei := errResultIndex(g.Signature)
+			bind := map[*ssa.Parameter]ssa.Value{}
+			for i, p := range g.Params {
+				if i < len(call.Common().Args) {
+					bind[p] = call.Common().Args[i]
+				}
+			}
+			allCalls(g, func(gi ssa.CallInstruction) {
+				gc, ok := gi.(*ssa.Call)
+				if !ok || !c.isInvokeOf(gc, "store", "Tx", "Get") {
+					return
+				}
+				k := gc.Common().Args[0]
+				if matchIn != nil {
+					if !matchIn(k, bind) {
+						return
+					}
+				} else if !matchKey(k) {
+					return
+				}
+				var gex, gab []edge
+				for _, v := range resultValues(gc, 0) {
+					gex = append(gex, nonNilEdges(g, sameValue(v))...)
+					gab = append(gab, nilEdges(g, sameValue(v))...)
+				}
+				allEx, allAb, n := true, true, 0
+				for _, ret := range returnsOf(g) {
+					if ev, ok := returnedValue(ret, ei); ok && c.provablyNonNil(g, ev, ret.Block()) {
+						continue
+					}
+					n++
+					if !guardedBy(g, ret.Block(), gex) {
+						allEx = false
+					}
+					if !guardedBy(g, ret.Block(), gab) {
+						allAb = false
+					}
+				}
+				if n == 0 {
+					return
+				}
+				for _, rv := range resultValues(call, ei) {
+					if allEx {
+						exists = append(exists, nilEdges(fn, sameValue(rv))...)
+					}
+					if allAb {
+						absent = append(absent, nilEdges(fn, sameValue(rv))...)
+					}
+				}
+			})
 		}
 		if c.isInvokeOf(call, "store", "Tx", "Get") {
 			if !matchKey(call.Common().Args[0]) {
@@ -499,4 +561,59 @@ func (c *Ctx) existenceEdges(fn *ssa.Function, matchKey func(k ssa.Value) bool) 
 		}
 	})
 	return
+}
+
+// sameKeyExpr: expression a (in a helper's frame, its parameters bound by bind) denotes the same
+// key as b (in the caller's frame): the same value, or the same pure library function applied to
+// pairwise equal arguments, or equal constants.
+func (c *Ctx) sameKeyExpr(a, b ssa.Value, bind map[*ssa.Parameter]ssa.Value, depth int) bool {
+	if a == nil || b == nil || depth > 6 {
+		return false
+	}
+	a, b = stripConv(a), stripConv(b)
+	if p, ok := a.(*ssa.Parameter); ok {
+		if v, ok := bind[p]; ok {
+			v = stripConv(v)
+			return v == b || sameOrigin(v, b) || c.sameKeyExpr(v, b, nil, depth+1)
+		}
+	}
+	if a == b || sameOrigin(a, b) {
+		return true
+	}
+	if ca, ok := a.(*ssa.Const); ok {
+		cb, ok := b.(*ssa.Const)
+		return ok && ca.Value != nil && cb.Value != nil && ca.Value.ExactString() == cb.Value.ExactString()
+	}
+	for _, oa := range origins(a) {
+		for _, ob := range origins(b) {
+			ka, okA := oa.(*ssa.Call)
+			kb, okB := ob.(*ssa.Call)
+			if !okA || !okB {
+				continue
+			}
+			ga, gb := staticCallee(ka), staticCallee(kb)
+			if ga == nil || ga != gb || len(ka.Call.Args) != len(kb.Call.Args) {
+				continue
+			}
+			if !c.IsLib(c.declared(ga)) && !(ga.Pkg != nil && (ga.Pkg.Pkg.Path() == "fmt" || ga.Pkg.Pkg.Path() == "strings")) {
+				continue
+			}
+			all := true
+			for i := range ka.Call.Args {
+				if !c.sameKeyExpr(ka.Call.Args[i], kb.Call.Args[i], bind, depth+1) {
+					all = false
+				}
+			}
+			if all {
+				return true
+			}
+		}
+	}
+	// a + b
+	if ba, ok := a.(*ssa.BinOp); ok {
+		if bb, ok := b.(*ssa.BinOp); ok && ba.Op == bb.Op {
+			return c.sameKeyExpr(ba.X, bb.X, bind, depth+1) && c.sameKeyExpr(ba.Y, bb.Y, bind, depth+1)
+		}
+	}
+	return false
 }
